@@ -440,7 +440,9 @@ def run_synclog(ctx, cf, dev, c, nwant, end, devlog, st, SyncLogger, connect):
         return
     lc = c['obj']
     delivered = []
-    lc.data_received_cb.add_callback(lambda ts, data, lcf: delivered.append((ts, dict(data))))
+    lc.data_received_cb.add_callback(lambda ts, data, lcf: (delivered.append((ts, dict(data))),
+                                                            stamps.append(sim.now)))
+    stamps = []
     yielded = []
     res = {}
 
@@ -491,8 +493,11 @@ def run_synclog(ctx, cf, dev, c, nwant, end, devlog, st, SyncLogger, connect):
     if yielded != delivered[:len(yielded)]:
         ctx.violation('6', 'synclogger-yield-differs', 'yielded %r..., dispatcher delivered %r...'
                       % (yielded[:3], delivered[:3]))
-    elif end != 'break' and len(yielded) < len(delivered) - 0:
-        # everything delivered before the disconnect event must have been yielded
-        ctx.violation('6', 'synclogger-lost-samples', 'dispatcher delivered %d samples before the disconnect, iterator '
-                      'yielded %d' % (len(delivered), len(yielded)))
+    elif end != 'break':
+        # everything delivered before the disconnect was requested must have been yielded; a sample that is being
+        # dispatched while the link is torn down may or may not make it
+        before = sum(1 for t in stamps if t < t_disc - 1e-12)
+        if len(yielded) < before:
+            ctx.violation('6', 'synclogger-lost-samples', 'dispatcher delivered %d samples before the disconnect, iterator '
+                          'yielded %d' % (before, len(yielded)))
     ctx.obs('synclog', len(yielded), len(delivered))
